@@ -31,7 +31,12 @@ Theorem C07_srt_to_vtt : forall l : list sitem,
 Proof. exact srt_to_vtt. Qed.
 Print Assumptions C07_srt_to_vtt.
 
-(* WebVTT file -> SubRip file *)
+(* WebVTT file -> SubRip file.  Scope: the second hypothesis holds for documents whose runs carry no tags (voices, comments,
+   settings, regions, inline timestamps are fine): a tagged run becomes a SubRip run with an attribute-less style, which
+   the SubRip representability predicate excludes (the writer emits it exactly like an unstyled run, and the reader then
+   merges it with its neighbours).  Tagged documents are covered by C07_any_source below together with the byte comparison
+   of the library's WebVTT -> SubRip conversion of styled documents with the conversion through the plain view
+   (suite plain.styled.vtt->srt).  Non-vacuity: C07_vtt_to_srt_example. *)
 Theorem C07_vtt_to_srt : forall d so ro,
   repr_vdoc d so ro -> Forall repr_item (conv_vs (ndoc d so ro)) ->
   exists vtt srt l', write_vtt d so ro = Ok vtt /\ convert_vtt_srt vtt = Ok srt /\ read_srt srt = Ok l' /\
@@ -154,6 +159,11 @@ Print Assumptions C07_cli.
 
 Example C07_plain_example : srt_plain_ok ex_plain /\ vtt_plain_ok (ptrunc 1000000 ex_plain).
 Proof. split; [exact ex_plain_srt_ok | exact ex_plain_vtt_ok]. Qed.
+
+Example C07_vtt_to_srt_example :
+  repr_vdoc (vtt_of_plain (ptrunc 1000000 ex_plain)) [] [] /\
+  Forall repr_item (conv_vs (ndoc (vtt_of_plain (ptrunc 1000000 ex_plain)) [] [])).
+Proof. exact ex_vtt_to_srt_hyps. Qed.
 
 Example C07_conversion_example : Forall repr_item ex_conv /\ repr_vdoc (conv_sv (renumber_truncate ex_conv)) [] [].
 Proof. split; [exact ex_conv_srt | exact ex_conv_repr]. Qed.
